@@ -237,6 +237,61 @@ def reject_worker(ctx, job):
     return res
 
 
+def extract_worker(ctx, job):
+    """No crash, no fault: a COPY of an entry is handed out, the caller edits / truncates / appends to its copy, the entry is
+    copied again onto the same path. Whatever the caller does with a copy, the file under the content address keeps the
+    complete data whose digest is its address (hard links are a different contract: they share the inode by design)."""
+    res = V.new()
+    flavour, side = job["flavour"], job["side"]
+    srv = ctx.srv(flavour)
+    suf = "_sync" if side == "s" else ""
+    cache = ctx.fresh("c03x-")
+    outdir = ctx.fresh("c03xd-")
+    os.makedirs(outdir)
+    for n in (1, 9, 70000):
+        for op in ("copy", "copy_unchecked", "copy_hash", "copy_hash_unchecked"):
+            for edit in ("copy-again", "overwrite-start", "truncate", "append", "truncate-then-copy-again"):
+                fsutil.wipe(cache)
+                dest = os.path.join(outdir, "handed-out")
+                fsutil.wipe(dest)
+                rep, _ = wr.do_write(srv, cache, side="s", entry="oneshot", key="k", n=n, tag=77)
+                sri_ = ctx.sri("sha256", ref.gen(n, 77))
+                sc = {"entry": "extract-" + op + "/" + side, "flavour": flavour, "n": n}
+                replay = {"engine": "seqx", "mode": "copy handed out and edited", "flavour": flavour, "side": side, "op": op, "n": n, "edit": edit}
+                res["evals"] += 1
+                res["distinct"].add(V.h("extract", flavour, side, n, op, edit))
+                r1 = srv.call({"op": op + suf, "cache": cache, "key": "k", "sri": sri_, "to": dest})
+                if "ok" not in r1:
+                    V.violation(res, "content:extract:%s/%s:%s" % (op, side, classify(r1)), "copy of an intact entry failed: %r" % r1, replay)
+                    continue
+                if edit in ("overwrite-start", "truncate", "append", "truncate-then-copy-again"):
+                    with open(dest, "r+b") as fh:
+                        if edit == "overwrite-start":
+                            fh.write(b"\xff")
+                        elif edit == "append":
+                            fh.seek(0, 2)
+                            fh.write(b"tail")
+                        else:
+                            fh.truncate(0)
+                if edit in ("copy-again", "truncate-then-copy-again"):
+                    srv.call({"op": op + suf, "cache": cache, "key": "k", "sri": sri_, "to": dest})
+                res["transitions"] += 3
+                V.outcome(res, "extract:%s" % edit)
+                content_check(ctx, res, fsutil.snapshot(cache), sc, "after a copy was handed out and the caller did '%s'" % edit, replay)
+                cp = os.path.join(cache, ref.content_rel(sri_))
+                try:
+                    with open(cp, "rb") as fh:
+                        ok_ = fh.read() == ref.gen(n, 77)
+                except OSError:
+                    ok_ = False
+                if not ok_:
+                    V.violation(res, "content:extract:%s/%s:content-changed" % (op, side), "after '%s' on a handed-out copy the content file no longer holds the entry" % edit, replay)
+    fsutil.wipe(cache)
+    fsutil.wipe(outdir)
+    res["samples"].append({"kind": "copies handed out and edited", "flavour": flavour, "side": side})
+    return res
+
+
 def faultcrash_worker(ctx, job):
     """One injected failure plus a crash: the publishing rename (or the directory creation before it) fails with an
     errno, and the process is then killed at every later system call, with every later write torn. Whatever error
@@ -301,6 +356,8 @@ def worker(ctx, job):
         return short_worker(ctx, job)
     if job["kind"] == "faultcrash":
         return faultcrash_worker(ctx, job)
+    if job["kind"] == "extract":
+        return extract_worker(ctx, job)
     res = V.new()
     sc = job["sc"]
     cache = ctx.path("c03-cache")
@@ -385,6 +442,7 @@ def main(tier, seed=0):
         jobs = [{"kind": "short", "flavour": f, "side": sd, "entry": e, "n": 4097} for f, sd in (("sync", "s"), ("astd", "a"), ("tok", "a")) for e in ("oneshot", "hash", "session", "session_declared")] + jobs
         fc = [sc for sc in scs if sc["init"] == "cold" and sc["n"] in (5, 4097) and (tier != "quick" or sc["entry"] in ("write_sync", "sw_declared", "write", "aw_plain"))]
         jobs = [{"kind": "faultcrash", "sc": sc} for sc in fc] + jobs
+        jobs = [{"kind": "extract", "flavour": f, "side": sd} for f, sd in (("sync", "s"), ("astd", "a"), ("tok", "a"))] + jobs
         for r in pool.imap_unordered(R._work, jobs, chunksize=1):
             if "machinery_error" in r:
                 merr.append(r["machinery_error"])
